@@ -100,3 +100,35 @@ def kwarg(call, name, pos=None):
     if pos is not None and pos < len(call.args):
         return call.args[pos]
     return None
+
+
+def close_subst(m, depth=4):
+    """close a substitution map under itself"""
+    m = dict(m)
+    for _ in range(depth):
+        changed = False
+        for k, v in list(m.items()):
+            names = {n.id for n in ast.walk(v) if isinstance(n, ast.Name)}
+            if names & (set(m) - {k}):
+                nv = _Subst({a: b for a, b in m.items() if a != k}).visit(copy.deepcopy(v))
+                if ast.dump(nv) != ast.dump(v):
+                    m[k] = nv
+                    changed = True
+        if not changed:
+            break
+    return m
+
+
+def branch_subst(stmts):
+    """names assigned exactly once (plain assignment) inside `stmts`,
+    closed under itself: name -> value AST"""
+    cnt, val = {}, {}
+    for st in stmts:
+        for n in ast.walk(st):
+            if isinstance(n, ast.Assign) and len(n.targets) == 1 and isinstance(n.targets[0], ast.Name):
+                cnt[n.targets[0].id] = cnt.get(n.targets[0].id, 0) + 1
+                val[n.targets[0].id] = n.value
+            elif isinstance(n, ast.Name) and isinstance(n.ctx, ast.Store) and not (
+                    isinstance(getattr(n, "_parent", None), ast.Assign)):
+                cnt[n.id] = cnt.get(n.id, 0) + 2
+    return close_subst({k: v for k, v in val.items() if cnt[k] == 1})
